@@ -20,7 +20,7 @@ TRUSTED = [
     "printed precision, and printing that value again gives the same text; str(int) prints a decimal int() reads back",
 ]
 ASSUMPTIONS = ["the sign of zero is not modelled (-0 is compared as 0 in the writer correspondence)",
-               "per-format row round trip proved for Oscar2013, 22-column Extended and JETSCAPE; hypothesis row_rt for 20/21-column Extended and ASCII",
+               "per-format row round trip proved for Oscar2013, Extended (20/21/22 columns), ASCII (any duplicate-free known column list) and JETSCAPE",
                "states are taken as they are held: after an event-removing filter the footers are those of the renumbered labels (open finding C06-footers-after-event-removal)"]
 LEVEL_TEXT = ("Theorems (Coq): for every held state satisfying the storer invariant the writer model writes the rendering of a document whose events are the "
               "held events numbered from 0, each with its own end line; by C01 that document reads back to the held data rounded to the printed precision "
@@ -28,7 +28,7 @@ LEVEL_TEXT = ("Theorems (Coq): for every held state satisfying the storer invari
               "column scheme whose writer columns/formats agree with the loader tables, instantiated (no hypothesis left) for Oscar2013, Extended/22 and JETSCAPE; the same three theorems (write = render, read back, fixpoint) for the JETSCAPE writer. "
               "The writer models (Oscar and JETSCAPE) are compared token for token with the files the real writers produce, and a round-trip oracle runs "
               "load -> filters -> write -> read -> write on the real code for every case.")
-LEVEL_NOTE = ("Partial: row_rt is a hypothesis for 20/21-column Extended and ASCII; oracle laws for % formatting assumed "
+LEVEL_NOTE = ("Oracle laws for % formatting assumed "
               "(exercised on every value of every case); one open finding (footers after event-removing filters).")
 TECHNIQUE = "Coq proof: writer model = render of a document, composed with the C01 loader theorem; generic row round trip from regenerated tables; token-exact writer correspondence"
 
